@@ -648,7 +648,9 @@ pub fn main(args: &[String]) {
     let seed: u64 = get("--seed").and_then(|s| s.parse().ok()).unwrap_or(1);
     let n: usize = get("--n").and_then(|s| s.parse().ok()).unwrap_or(1000);
     let out = get("--out").expect("--out FILE");
-    let data = get("--likely-data").unwrap_or_else(|| "/repo/unic-langid-impl/data/likelySubtags.json".into());
+    let data = get("--likely-data")
+        .or_else(|| std::env::var("VERIF_LIKELY").ok())
+        .unwrap_or_else(|| "/repo/unic-langid-impl/data/likelySubtags.json".into());
     let mut r = Rng::new(seed ^ (driver.len() as u64) << 32 ^ driver.bytes().fold(0u64, |a, c| a.wrapping_mul(131).wrapping_add(c as u64)));
     let mut log = Log::new(&out);
     match driver.as_str() {
